@@ -7,11 +7,15 @@ O: the extracted, verified explorer (Kernel/Ref.v, C14_explorer_sound_complete) 
 K: the order in which maestro handled the operations of the real run (SIMGRID_VERIF hook in ActorImpl::simcall_handle) is replayed through the extracted reference step function
    (C14_replay_sound): it must be executable, end in a terminal state and give the implementation's own observation.  The
    deterministic engine model's trace (C14_engine_refines) is compared too, as a note only: another fixed scheduling order
-   would be a harmless rewrite for this property."""
+   would be a harmless rewrite for this property.
+Time: programs without Put/Get are judged by the *timed* reading of the reference (Ref.p_timed: dyadic sleeps and timeouts, a clock that
+   jumps to the earliest armed timer only when nobody can step), so that queueing orders forced by dates are binding; the others by the
+   untimed reading (sleeps are skips, a pending acquire_timeout may time out at any moment).  Timer events (a sleep is over, an
+   acquire_timeout timed out) are part of the replayed schedule (hx field of the harness)."""
 import json
 import fw
 import eng3_common as E
-from eng3_common import LOCK, UNLOCK, ACQ, REL, CVWAIT, NOTIFY1, NOTIFYALL, BAR, PUT, GET, SLEEP
+from eng3_common import LOCK, UNLOCK, ACQ, REL, CVWAIT, NOTIFY1, NOTIFYALL, BAR, PUT, GET, SLEEP, ACQT
 
 FACTORIES = ["thread", "raw", "boost"]
 
@@ -43,6 +47,78 @@ CORPUS = [
     P(1, [], 0, [], 1, [(PUT, 0, 1), (PUT, 0, 2)], [(GET, 0, 0)]),
 ]
 
+# timed semaphore acquisitions (kept apart: C01/C02 reuse CORPUS only)
+CORPUS_T = [
+    # queue [A,B,C] forced by dates 0 < 1 s < 2 s < 10 s; A times out, its release serves B, B's serves C: one outcome, no deadlock
+    P(0, [0], 0, [], 0, [(ACQT, 0, 80), (REL, 0, 0)], [(SLEEP, 8, 0), (ACQ, 0, 0), (REL, 0, 0)], [(SLEEP, 16, 0), (ACQ, 0, 0)]),
+    # the same at date 0 (timeout 0, no sleeps): queueing order free
+    P(0, [0], 0, [], 0, [(ACQT, 0, 0), (REL, 0, 0)], [(ACQ, 0, 0), (REL, 0, 0)], [(ACQ, 0, 0)]),
+    # four waiters, the second one times out (3.5 s) while two are queued behind it; releaser at 5 s and 6 s serves A then C; D blocked for ever
+    P(0, [0], 0, [], 0, [(ACQ, 0, 0)], [(SLEEP, 4, 0), (ACQT, 0, 24)], [(SLEEP, 8, 0), (ACQ, 0, 0)], [(SLEEP, 12, 0), (ACQ, 0, 0)],
+      [(SLEEP, 40, 0), (REL, 0, 0), (SLEEP, 8, 0), (REL, 0, 0)]),
+    # granted before the timeout; a timeout on a semaphore with a token; negative timeout = plain acquire
+    P(0, [0, 1], 0, [], 0, [(ACQT, 0, 16), (ACQT, 1, 8), (ACQT, 1, 8), (REL, 0, 0)], [(SLEEP, 8, 0), (REL, 0, 0), (ACQT, 0, -8)]),
+    # untimed reading (a mailbox is used): the timeout is a free alternative
+    P(0, [0], 0, [], 1, [(ACQT, 0, 8), (PUT, 0, 3)], [(GET, 0, 0), (REL, 0, 0)], [(ACQ, 0, 0), (REL, 0, 0)]),
+]
+
+
+def p_timed(p):
+    """mirror of Ref.p_timed: every operation instantaneous or a dyadic sleep / timeout"""
+    return not any(c in (PUT, GET) for _, ops in p["actors"] for c, _, _ in ops)
+
+
+def gen_timed_sem(rng):
+    """Waiters reach semaphore 0 (no token) at distinct dates forced by sleeps; some use acquire_timeout and time out while others
+    are queued behind them; tokens come from waiters that pass theirs on, from timed-out waiters and from a releaser.  No Put/Get:
+    the timed reading applies and the FIFO order of the queue is binding."""
+    n = rng.randint(3, 5)
+    step = rng.choice([4, 8, 8])
+    sems = [0] + ([rng.choice([0, 1])] if rng.random() < 0.3 else [])
+    acts = []
+    for k in range(n):
+        ops = []
+        arr = k * step + (rng.choice([0, 0, 1, 2]) if k else 0)
+        if arr:
+            ops.append((SLEEP, arr, 0))
+        r = rng.random()
+        if k == 0 and r < 0.6:      # the oldest waiter gives up when everybody is queued
+            ops.append((ACQT, 0, n * step + rng.choice([1, 3, 8, 16])))
+        elif r < 0.35:
+            ops.append((ACQT, 0, rng.choice([0, 1, 2, 4, 6, 12, 20, 36, 60])))
+        else:
+            ops.append((ACQ, 0, 0))
+        if len(sems) > 1 and rng.random() < 0.3:
+            ops.append((rng.choice([ACQT, ACQ, REL]), 1, rng.choice([1, 4, 16])))
+        if rng.random() < 0.6:
+            ops.append((REL, 0, 0))
+        acts.append(ops)
+    if rng.random() < 0.5:
+        ops = []
+        for _ in range(rng.randint(1, 3)):
+            ops += [(SLEEP, rng.choice([step, 2 * step, n * step + 2, n * step + 20]), 0), (REL, 0, 0)]
+        acts.append(ops)
+    return {"nm": 0, "sems": sems, "nc": 0, "bars": [], "nmb": 0, "actors": [(rng.randrange(5), ops) for ops in acts]}
+
+
+def gen_acqt(rng, big):
+    """eng3_common.gen_prog with some acquisitions made timed (dyadic timeouts, 0 included); with or without Put/Get"""
+    for _ in range(20):
+        p = E.gen_prog(rng, na_max=5 if big else 3, nops_max=10 if big else 6, mail=rng.random() < 0.4)
+        if any(c == ACQ for _, ops in p["actors"] for c, _, _ in ops):
+            break
+    p["actors"] = [(h, [((ACQT, a, rng.choice([0, 1, 2, 4, 8, 16])) if c == ACQ and rng.random() < 0.6 else (c, a, b)) for c, a, b in ops])
+                   for h, ops in p["actors"]]
+    return p
+
+
+def schedule(p, o):
+    """the order in which the operations were handled and the timers fired; a sleep's end is a step only in the timed reading"""
+    if o.get("hx"):
+        tm = p_timed(p)
+        return [a for a, _, k in o["hx"] if k == 0 or k == 2 or (k == 1 and tm)]
+    return [a for a, _ in (o.get("ht") or o.get("tr") or [])]
+
 
 def split_explore(ans):
     if not ans or ans[0] != 1:
@@ -60,7 +136,7 @@ def run(ctx):
     ctx.prove()
     exe = fw.build_harness("eng3_interp")
     fuel = ctx.n(6000, 40000)
-    progs, facts = list(CORPUS), FACTORIES
+    progs, facts = list(CORPUS) + list(CORPUS_T), FACTORIES
     if ctx.replay:
         rp = json.load(open(ctx.replay))["case"]
         progs, facts = [rp["prog"]], ([rp["factory"]] if rp.get("factory") else FACTORIES)
@@ -69,15 +145,20 @@ def run(ctx):
         for i in range(ctx.n(90, 1000)):
             big = ctx.rng.random() < (0.15 if ctx.quick else 0.3)
             progs.append(E.gen_prog(ctx.rng, na_max=5 if big else 3, nops_max=12 if big else 6))
+        for i in range(ctx.n(50, 500)):
+            progs.append(gen_timed_sem(ctx.rng) if i % 5 < 3 else gen_acqt(ctx.rng, ctx.rng.random() < 0.2))
     enc = [E.encode(p) for p in progs]
     ctx.cov["rule"] = ("programs of 2-5 actors x <=12 operations built from critical sections, nested locks, semaphore pairs, "
                        "producer/consumer, condvar wait/notify, barriers (sometimes one short), put/get pairs, dyadic sleeps, then "
-                       "mutated; non-trivial = the verified explorer finds >= 2 reachable terminal states or a reachable deadlock; "
+                       "mutated; + semaphore queues whose order is forced by dates with acquire_timeout waiters that time out in the middle of "
+                       "the queue; + generated programs with acquisitions made timed; non-trivial = the verified explorer finds >= 2 reachable terminal states or a reachable deadlock; "
                        "distinct = distinct programs")
     R = [split_explore(a) for a in fw.run_model("c14", "run_c14_explore", [[fuel] + e for e in enc])]
     eng = fw.run_model("c14", "run_c14_engine", [[4000] + e for e in enc])
     dist = {"programs": len(progs), "explorer_complete": sum(r is not None for r in R), "ref_has_deadlock": 0, "ref_multi_terminal": 0,
             "impl_deadlocks": 0, "impl_runs": 0, "timed_programs": sum(E.is_timed(p) for p in progs), "max_terminals": 0,
+            "timed_reading": sum(p_timed(p) for p in progs), "with_acquire_timeout": sum(any(c == ACQT for _, ops in p["actors"] for c, _, _ in ops) for p in progs),
+            "impl_timeouts": 0,
             "engine_model_trace_equal": 0, "engine_model_trace_compared": 0}
     for p, r in zip(progs, R):
         hasdl = r is not None and any(t[1] == 1 for t in r)
@@ -89,8 +170,8 @@ def run(ctx):
     for f in facts:
         lines = E.run_impl(exe, enc, cfg=["contexts/factory:" + f])
         obs = [E.parse_obs(l) for l in lines]
-        for o in obs:               # the schedule = order in which maestro handled the operations (hook); fall back to the start order
-            o["sched"] = [a for a, _ in (o.get("ht") or o.get("tr") or [])]
+        for p, o in zip(progs, obs):    # the schedule = order in which maestro handled the operations (hook) and the timers fired
+            o["sched"] = schedule(p, o) if "crash" not in o else []
         rep = fw.run_model("c14", "run_c14_replay", [e + [len(o["sched"])] + o["sched"] for e, o in zip(enc, obs)])
         for p, r, o, rp, en in zip(progs, R, obs, rep, eng):
             case = {"prog": p, "factory": f}
@@ -99,6 +180,7 @@ def run(ctx):
                 ctx.fail("impl-crash", "factory %s: the simulator died (%s) on a well-formed program %s" % (f, o["crash"], E.pretty(p)), case)
                 continue
             dist["impl_deadlocks"] += o["dl"]
+            dist["impl_timeouts"] += sum(k == 2 for _, _, k in o["hx"])
             proj = E.model_obs_of_impl(o)
             verdict = None            # the verified deadlock flag of the state the implementation ended in
             if r is not None:
@@ -115,7 +197,7 @@ def run(ctx):
             # K: the run's own schedule through the reference step function
             if rp[0] != 1:
                 ctx.mismatch("trace-replay", "factory %s: the order in which the operations were handled is not executable in the reference "
-                             "semantics; program %s schedule %s" % (f, E.pretty(p), o["ht"] or o["tr"]), case)
+                             "semantics; program %s schedule %s" % (f, E.pretty(p), o["hx"] or o["ht"] or o["tr"]), case)
             elif rp[1] != 1 or rp[4:] != proj:
                 ctx.mismatch("trace-replay", "factory %s: replaying the run's schedule gives %s (terminal=%d), the run observed %s; program %s"
                              % (f, rp[4:], rp[1], proj, E.pretty(p)), case)
@@ -135,22 +217,33 @@ def run(ctx):
     ctx.assumptions += ["programs are well-formed (unlock / condvar wait only on a mutex the actor holds): the harness would abort otherwise",
                         "no actor locks a non-recursive mutex it already holds (the reference blocks it for ever; MutexAcquisitionImpl::wait_for lets it "
                         "through because it tests the owner instead of the grant - mutex semantics, property C04's ground)",
-                        "sleeps and communication delays only restrict the interleavings the simulator takes; the reference treats them as skips",
+                        "programs with Put/Get: sleeps and communication delays only restrict the interleavings the simulator takes; the reference treats sleeps as "
+                        "skips and lets a pending acquire_timeout time out at any moment; programs without Put/Get: dates are multiples of 1/8 s (exact in "
+                        "binary64), every other operation is instantaneous, timers due at the same date may fire in any order",
                         "the schedule of a run is the order in which ActorImpl::simcall_handle is entered for the first simcall of each operation (hook bbdc92c4e7)"]
 
 
 META = {
     "level": "proof",
-    "text": "Coq: the reference interleaving semantics of synchronisation programs (FIFO mutexes, semaphores, condition variables with re-lock, "
-            "re-armed barriers, rendez-vous mailboxes) with a verified explorer: explore f P = Some T -> (reachable_terminal P s <-> In s T) "
-            "(C14_explorer_sound_complete); terminal + unfinished actor <-> reference deadlock (C14_deadlock_iff_terminal_unfinished, decided by "
-            "C14_deadlock_decided); replayed schedules and the model of EngineImpl::run's sub-rounds are reference executions (C14_replay_sound, "
-            "C14_engine_refines); no reachable deadlock => none reported (C14_deadlock_free_never_reports). Every generated program is run on the rebuilt "
-            "simulator under thread/raw/boost factories: its final observation must be a member of the explorer's set, its deadlock report must equal "
-            "the verified predicate, and its own schedule must replay to the same observation.",
+    "text": "Coq: the reference interleaving semantics of synchronisation programs (FIFO mutexes, semaphores incl. acquire_timeout, condition "
+            "variables with re-lock, re-armed barriers, rendez-vous mailboxes, dyadic sleeps) with a verified explorer: explore f P = Some T -> "
+            "(reachable_terminal P s <-> In s T) (C14_explorer_sound_complete). A step is: an unblocked actor executes its next operation, the "
+            "timer of a blocked actor fires (sleep over / acquisition timed out: exactly that waiter leaves the queue, the others keep their order, "
+            "C14_timeout_keeps_order), or - timed reading, for programs without Put/Get - the clock jumps to the earliest armed timer when nobody "
+            "can step; in the untimed reading sleeps are skips and a pending timeout may fire at any moment. Terminal + unfinished actor <-> "
+            "reference deadlock = every unfinished actor blocked without armed timer (C14_deadlock_iff_terminal_unfinished, decided by "
+            "C14_deadlock_decided); replayed schedules (with implicit clock ticks) and the model of EngineImpl::run's sub-rounds are reference "
+            "executions (C14_replay_sound, C14_engine_refines); no reachable deadlock => none reported (C14_deadlock_free_never_reports). Every "
+            "generated program is run on the rebuilt simulator under thread/raw/boost factories: its final observation must be a member of the "
+            "explorer's set, its deadlock report must equal the verified predicate, and its own schedule (handled operations + timer events) must "
+            "replay to the same observation.",
     "note": "Proved for all programs/schedules about the Gallina semantics; the simulator is tied per run (membership + schedule replay), programs "
-            "<= 5 actors x 12 ops, explorer bounded by fuel (falls back to the replayed schedule, which is sound for membership). Not modelled: "
-            "timeouts, try_lock, recursive mutexes, asynchronous comms, filters; simulated time (treated as scheduling freedom).",
-    "technique": "Coq proof (generic DFS closure invariant, case analysis of the step function) + extracted explorer as oracle + schedule replay correspondence",
+            "<= 6 actors x 12 ops, explorer bounded by fuel (falls back to the replayed schedule, which is sound for membership). Timed reading: "
+            "dates are multiples of 1/8 s, all other operations instantaneous, timers due at the same date may fire in any order (more permissive "
+            "than the simulator, never stricter). Not modelled: condition-variable wait_for/wait_until, try_lock, recursive mutexes, asynchronous "
+            "comms, filters; durations of communications (programs with Put/Get are read without dates). Catches the seeded swap-with-last removal in "
+            "SemAcquisitionImpl::cancel (queue forced by dates, middle waiter times out, release serves the wrong waiter).",
+    "technique": "Coq proof (generic DFS closure invariant, case analysis of the step function, discrete-event clock) + extracted explorer as oracle + "
+                 "schedule replay correspondence",
     "claimed": True,
 }
